@@ -52,6 +52,7 @@ Rules == <<
   [p |-> Svc(<<"logging">>), r |-> "logging"],
   [p |-> Svc(<<"ports">>), r |-> "keyed-port"],
   [p |-> Svc(<<"volumes">>), r |-> "keyed-target"],
+  [p |-> Svc(<<"devices">>), r |-> "keyed-device"],
   [p |-> Svc(<<"secrets">>), r |-> "keyed-mount-secret"],
   [p |-> Svc(<<"configs">>), r |-> "keyed-mount-config"],
   [p |-> <<"networks", "*", "ipam", "config">>, r |-> "ipam-config"]
@@ -93,6 +94,9 @@ KeyOf(kind, e) ==
          ELSE <<"short", e.v>>
     [] kind = "keyed-envfile" -> IF IsM(e) THEN Get(e, "path").v ELSE e.v
     [] kind = "keyed-target" -> IF IsM(e) THEN Get(e, "target").v ELSE <<"short", e.v>>
+    \* a device mapping SRC[:TARGET[:PERMISSIONS]] is keyed by its target (the source when there is no target)
+    [] kind = "keyed-device" -> IF IsM(e) THEN Get(e, "target").v
+                                ELSE IF IndexOf(e.v, ":") = 0 THEN e.v ELSE Before(After(e.v, ":"), ":")
     [] kind = "keyed-mount-secret" -> IF IsM(e) THEN (IF Has(e, "target") THEN Get(e, "target").v ELSE "/run/secrets/" \o Get(e, "source").v) ELSE "/run/secrets/" \o e.v
     [] kind = "keyed-mount-config" -> IF IsM(e) THEN (IF Has(e, "target") THEN Get(e, "target").v ELSE "/" \o Get(e, "source").v) ELSE "/" \o e.v
 \* later entry wins, at the position of the first entry with that key
@@ -121,7 +125,7 @@ Over(b, o, path) ==
     [] r = "kv" -> M(OverKV(ToKV(b), ToKV(o)))
     [] r = "strlist-unique" -> L(Uniq(ToList(b) \o ToList(o)))
     [] r = "strlist" -> L(ToList(b) \o ToList(o))
-    [] r \in {"keyed-port", "keyed-target", "keyed-mount-secret", "keyed-mount-config"} -> L(Dedup(r, b.v \o o.v))
+    [] r \in {"keyed-port", "keyed-target", "keyed-device", "keyed-mount-secret", "keyed-mount-config"} -> L(Dedup(r, b.v \o o.v))
     [] r = "keyed-envfile" -> L(Dedup(r, ToList(b) \o ToList(o)))
     [] r = "depends_on" -> MapOver(ListToMap(b, DependsDefault), ListToMap(o, DependsDefault), path)
     [] r = "networks" -> MapOver(ListToMap(b, Null), ListToMap(o, Null), path)
